@@ -499,6 +499,62 @@ func genC11(rng *hx.Rng, tier string, w *hx.Writer) error {
 			oracle = hx.Fail("malformed-accepted", "short GT input accepted")
 		}
 		w.Put(hx.Case{Entry: "-", Op: 0, Args: hx.L(hx.Z(k)), Impl: hx.Zi(len(enc)), Oracle: oracle, Tags: []string{"gt", "nt"}})
+		// the same through the model's decoder (Models/GtCodec.v), with trailing bytes as well
+		c11DecodeGT(w, enc, "gt-valid")
+		c11DecodeGT(w, append(append([]byte{}, enc...), rng.Bytes(1+rng.Intn(40))...), "gt-trailing")
+	}
+	// GT: arbitrary input - every length class, words at and beyond the field prime, bit flips of a
+	// valid encoding (the decoder makes no membership test: what it must do is refuse short input and
+	// deliver, for anything else, the twelve words reduced modulo p)
+	gtBase := PtBytes(Bn.GT().Point().Mul(Sc(Bn.G1(), rng.BigBelow(BnQ), BnQ), nil))
+	for _, l := range []int{0, 1, 31, 32, 33, 191, 192, 383, 384, 385, 416, 767, 768} {
+		c11DecodeGT(w, rng.Bytes(l), "gt-length")
+	}
+	pm1 := new(big.Int).Sub(BnP, big.NewInt(1)).Bytes()
+	pp1 := new(big.Int).Add(BnP, big.NewInt(1)).Bytes()
+	for it := 0; it < 12*scale; it++ {
+		b := append([]byte{}, gtBase...)
+		wd := rng.Intn(12)
+		switch it % 6 {
+		case 0:
+			copy(b[32*wd:], BnP.Bytes()) // the word p itself: reduces to 0
+		case 1:
+			copy(b[32*wd:], pm1)
+		case 2:
+			copy(b[32*wd:], pp1)
+		case 3:
+			for i := 0; i < 32; i++ {
+				b[32*wd+i] = 0xff
+			}
+		case 4:
+			b[rng.Intn(len(b))] ^= 1 << uint(rng.Intn(8))
+		default:
+			b = rng.Bytes(384)
+		}
+		c11DecodeGT(w, b, "gt-mutated")
 	}
 	return nil
+}
+
+// GT decoding against Models/GtCodec.v; the judge reduces the twelve words itself
+func c11DecodeGT(w *hx.Writer, b []byte, tag string) {
+	impl := unmarshalClass(Bn.GT(), b)
+	oracle := "ok"
+	switch {
+	case impl == hx.P:
+		oracle = hx.Fail("decode-panic", "GT UnmarshalBinary panicked ("+tag+"): "+hx.LastPanic)
+	case len(b) < 384 && impl != hx.E:
+		oracle = hx.Fail("malformed-accepted", "GT input shorter than 384 bytes was decoded without error")
+	case len(b) >= 384:
+		want := make([]byte, 384)
+		for i := 0; i < 12; i++ {
+			v := new(big.Int).Mod(new(big.Int).SetBytes(b[32*i:32*i+32]), BnP)
+			v.FillBytes(want[32*i : 32*i+32])
+		}
+		if impl != hx.B(want) {
+			oracle = hx.Fail("roundtrip-broken", "a 384-byte GT input does not decode to its twelve words modulo p ("+tag+")")
+		}
+	}
+	w.Put(hx.Case{Entry: "gt", Op: 1, Args: hx.L(hx.B(b)), Impl: impl, Oracle: oracle, Tags: []string{tag, "nt"},
+		Re: func() string { return unmarshalClass(Bn.GT(), b) }})
 }
